@@ -365,6 +365,14 @@ class Kernel:
             except Exception as exc:
                 traceback_mesg = EvalExceptionFormatter(exc).format()
 
+                #
+                # as below: make sure what the cell printed before it failed is sent
+                # before its error and the idle state (and before any later cell's output)
+                #
+                handshake_q = asyncio.Queue(0)
+                await self.housekeep_q.put(["handshake", handshake_q, 0])
+                await handshake_q.get()
+
                 metadata = {
                     "dependencies_met": True,
                     "engine": self.engine_id,
